@@ -54,8 +54,12 @@ def subset_lattice(msgs, check_reachability=True):
         parser, done = cur
         if check_reachability:
             got = []
-            for t in list(parser._tasks.values()) + list(done.values()):
-                tree_messages(t.root(), got)
+            try:
+                for t in list(parser._tasks.values()) + list(done.values()):
+                    tree_messages(t.root(), got)
+            except Exception as e:
+                bad("partial-tree-unavailable", {"subset": _idx(mask, n), "error": repr(e)[:200]})
+                continue
             want = sorted(keys[i] for i in range(n) if mask >> i & 1)
             if sorted(got) != want:
                 bad(
